@@ -196,8 +196,11 @@ func analyseKernel(ctx *Ctx, fn *ssa.Function, nverts int, interp string) (*kern
 			if st == 1 && mu != "" {
 				if rc, has := recs[mu]; has {
 					for step := 2; step <= 4; step++ {
-						if rc.Step.Key() == Add(K(int64(step)), A(mu)).Key() && rc.Init.IsZero() {
+						// `for j := c0; j < len(row); j += step` reading row[j-c0 .. j]: the counter
+						// may start at the last element of the first group
+						if rc.Step.Key() == Add(K(int64(step)), A(mu)).Key() && rc.Init.Op == "c" && rc.Init.C.IsInt() && rc.Init.C.Sign() >= 0 && rc.Init.C.Num().Int64() < int64(step) {
 							st = step
+							o += int(rc.Init.C.Num().Int64())
 						}
 					}
 				}
